@@ -12,6 +12,7 @@ replayed through the Lean driver (`drv_c08`) and compared at every step.
 import itertools
 import json
 import os
+from harness import vloop
 from multiprocessing import Pool
 
 from harness.base import Results, corpus_lines
@@ -379,7 +380,24 @@ def _work(args):
     repo, jobs = args
     out = []
     for cfg, evs in jobs:
-        r = run_one(repo, cfg, evs)
+        try:
+            r = run_one(repo, cfg, evs)
+        except vloop.Deadlock:
+            raise
+        except Exception as e:      # noqa
+            # an exception the world/oracle did not expect: if it originates in the code under
+            # test it is this case's observation (the case then fails), not a harness crash
+            import traceback as _tb
+            frames = _tb.extract_tb(e.__traceback__)
+            rp = os.path.realpath(repo) + os.sep
+            if not any(os.path.realpath(f.filename).startswith(rp) for f in frames):
+                raise
+            where = next(f for f in reversed(frames) if os.path.realpath(f.filename).startswith(rp))
+            r = ([('c08:unexpected-exception',
+                   f'{type(e).__name__}: {e} raised at {os.path.basename(where.filename)}:'
+                   f'{where.lineno} ({where.name}) during the scenario')], None,
+                 {'nontrivial': False, 'pending_at_loss': 0, 'in_body_at_loss': 0, 'lost': False,
+                  'aborts': 0, 'forced': 0, 'closers': 0, 'msg_task': None})
         out.append(r)
         if any(k == 'c08:livelock' and 'wall-clock' in why for k, why in r[0]):
             out += [None] * (len(jobs) - len(out))
